@@ -146,8 +146,8 @@ def dict2entry (sch : Schema) (opt : Option (Str × Nat)) (obj : KVs) : Option E
         | some none => some tail
         | some (some vals) => some ((optKey opt lf, vals) :: tail)
 
-/-- `_empty_list_entry(schema)` -/
-def emptyListEntry (sch : Schema) : Entry := sch.map (fun r => (r.1, []))
+/-- `_empty_list_entry(schema)`: a dict, so a repeated ldap name is kept once -/
+def emptyListEntry (sch : Schema) : Entry := sch.foldl (fun acc r => setKey r.1 [] acc) []
 
 /-- `_remove_empty(entry)` -/
 def removeEmpty (e : Entry) : Entry := e.filter (fun p => !p.2.isEmpty)
@@ -455,9 +455,9 @@ def encodeServices : Nat → List KVs → Option Entry
     | some e, some rs, some t =>
       match dict2entry ExtCodec.appSvcRestartSchema (some (pService, i)) rs with
       | some re =>
-        -- service_entry.update(restart entry): keys of the two schemas differ except 'service-name',
-        -- which the restart dict never carries
-        some (re.foldl (fun acc p => setKey p.1 p.2 acc) e ++ t)
+        -- service_entry.update(restart entry) as `++`: the ldap names of the two schemas differ except
+        -- 'service-name', which the restart dict never carries (it has no 'name')
+        some (e ++ re ++ t)
       | none => none
     | _, _, _ => none
 
@@ -465,41 +465,57 @@ def affinityRows : JVal → Option (List JVal)
   | .obj kvs => some (kvs.map (fun p => .obj [(S "level", .str p.1), (S "limit", p.2)]))
   | _ => none
 
-/-- `Application.to_entry(obj)` -/
-def appToEntry (obj : KVs) : Option Entry := do
-  let obj1 ← match lookup (S "ephemeral_ports") obj with
-    | some ep => do
-      let t ← getOr0 (S "tcp") ep
-      let u ← getOr0 (S "udp") ep
-      pure (setKey (S "ephemeral_ports_udp") u (setKey (S "ephemeral_ports_tcp") t obj))
-    | none => pure obj
-  let main ← dict2entry ExtCodec.appSchema none obj1
-  let svcs ← getList (S "services") obj
-  let svcRows ← sortByKey (S "name") svcs
-  let svcE ← match svcRows with
-    | [] => pure (emptyListEntry (ExtCodec.appSvcSchema ++ ExtCodec.appSvcRestartSchema))
-    | rows => encodeServices 0 rows
-  let eps ← getList (S "endpoints") obj
-  let epE ← toObjList eps (S "name") pEndpoint ExtCodec.appEndpointSchema
-  let env ← getList (S "environ") obj
-  let envE ← toObjList env (S "name") pEnvvar ExtCodec.appEnvironSchema
-  let aff ← match lookup (S "affinity_limits") obj with
-    | none => pure []
-    | some a => affinityRows a
-  let affE ← toObjList aff (S "level") pAffinity ExtCodec.appAffinitySchema
-  let vrE ← match lookup (S "vring") obj with
-    | none => pure []
-    | some .null => pure []
-    | some (.obj []) => pure []
-    | some (.obj vr) => do
-      let c ← dict2entry ExtCodec.appVringSchema none vr
-      let rules ← getList (S "rules") vr
-      let r ← toObjList rules (S "pattern") pVringRule ExtCodec.appVringRuleSchema
-      pure (c ++ r)
-    | some _ => none
-  -- entry.update(...) in this order; all key sets are pairwise disjoint, except the emptyListEntry
-  -- of services which lists 'service-name' twice (a dict keeps one)
-  pure (svcE.foldl (fun acc p => setKey p.1 p.2 acc) main ++ epE ++ envE ++ affE ++ vrE)
+/-- `obj['ephemeral_ports_tcp'] = obj['ephemeral_ports'].get('tcp', 0)` (and udp), then the flat schema -/
+def appWithPorts (obj : KVs) : Option KVs :=
+  match lookup (S "ephemeral_ports") obj with
+  | some ep =>
+    match getOr0 (S "tcp") ep, getOr0 (S "udp") ep with
+    | some t, some u => some (setKey (S "ephemeral_ports_udp") u (setKey (S "ephemeral_ports_tcp") t obj))
+    | _, _ => none
+  | none => some obj
+
+def appMainEntry (obj : KVs) : Option Entry := (appWithPorts obj).bind (dict2entry ExtCodec.appSchema none)
+
+/-- the services block: empty-list markers of both schemas, or one option group per service -/
+def appSvcEntry (obj : KVs) : Option Entry :=
+  match (getList (S "services") obj).bind (sortByKey (S "name")) with
+  | none => none
+  | some [] => some (emptyListEntry (ExtCodec.appSvcSchema ++ ExtCodec.appSvcRestartSchema))
+  | some rows => encodeServices 0 rows
+
+def appEndpointEntry (obj : KVs) : Option Entry :=
+  (getList (S "endpoints") obj).bind (fun l => toObjList l (S "name") pEndpoint ExtCodec.appEndpointSchema)
+
+def appEnvEntry (obj : KVs) : Option Entry :=
+  (getList (S "environ") obj).bind (fun l => toObjList l (S "name") pEnvvar ExtCodec.appEnvironSchema)
+
+def appAffRows (obj : KVs) : Option (List JVal) :=
+  match lookup (S "affinity_limits") obj with
+  | none => some []
+  | some a => affinityRows a
+
+def appAffEntry (obj : KVs) : Option Entry :=
+  (appAffRows obj).bind (fun l => toObjList l (S "level") pAffinity ExtCodec.appAffinitySchema)
+
+/-- `vring = obj.get('vring'); if vring: …` -/
+def appVringEntry (obj : KVs) : Option Entry :=
+  match lookup (S "vring") obj with
+  | none => some []
+  | some .null => some []
+  | some (.obj []) => some []
+  | some (.obj vr) =>
+    match dict2entry ExtCodec.appVringSchema none vr,
+          (getList (S "rules") vr).bind (fun l => toObjList l (S "pattern") pVringRule ExtCodec.appVringRuleSchema) with
+    | some c, some r => some (c ++ r)
+    | _, _ => none
+  | some _ => none
+
+/-- `Application.to_entry(obj)`: `entry.update(...)` in this order, as `++` (the key sets are
+    pairwise disjoint) -/
+def appToEntry (obj : KVs) : Option Entry :=
+  match appMainEntry obj, appSvcEntry obj, appEndpointEntry obj, appEnvEntry obj, appAffEntry obj, appVringEntry obj with
+  | some main, some svcE, some epE, some envE, some affE, some vrE => some (main ++ svcE ++ epE ++ envE ++ affE ++ vrE)
+  | _, _, _, _, _, _ => none
 
 /-- merge `restart` into the services (`for service in services: for service_restart in …`) -/
 def mergeRestart (restarts : List KVs) (svc : KVs) : Option KVs :=
@@ -532,29 +548,37 @@ def JVal.truthyList : JVal → Bool
   | .arr (_ :: _) => true
   | _ => false
 
-/-- `Application.from_entry(entry)` (dn = None, no operational attributes) -/
-def appFromEntry (entry : Entry) : Option KVs := do
-  let o ← entry2dict ExtCodec.appSchema entry
-  let services ← groupedToList ExtCodec.appSvcSchema (pfxOf pService) entry
-  let restarts ← groupedToList ExtCodec.appSvcRestartSchema (pfxOf pService) entry
-  let endpoints ← groupedToList ExtCodec.appEndpointSchema (pfxOf pEndpoint) entry
-  let environ ← groupedToList ExtCodec.appEnvironSchema (pfxOf pEnvvar) entry
-  let affinity ← groupedToList ExtCodec.appAffinitySchema (pfxOf pAffinity) entry
-  let vrules ← groupedToList ExtCodec.appVringRuleSchema (pfxOf pVringRule) entry
+/-- everything `Application.from_entry` does after the eight decoding calls -/
+def appFinish (o : KVs) (services restarts endpoints environ affinity vrules : List KVs) (vring : KVs) :
+    Option KVs :=
   let o := setKey (S "ephemeral_ports") (.obj []) o
   let o := moveKey (S "ephemeral_ports_tcp") (S "tcp") o
   let o := moveKey (S "ephemeral_ports_udp") (S "udp") o
-  let services ← services.mapM (mergeRestart restarts)
-  let aff ← affinityDict affinity
-  let vring ← entry2dict ExtCodec.appVringSchema entry
-  let vring := setKey (S "rules") (rowsJ vrules) vring
-  let o := setKey (S "services") (rowsJ services) o
-  let o := setKey (S "endpoints") (rowsJ endpoints) o
-  let o := setKey (S "environ") (rowsJ environ) o
-  let o := setKey (S "affinity_limits") (.obj aff) o
-  let cellsTruthy := match lookup (S "cells") vring with
-    | some c => c.truthyList
-    | none => false
-  pure (if cellsTruthy || !vrules.isEmpty then setKey (S "vring") (.obj vring) o else o)
+  match services.mapM (mergeRestart restarts), affinityDict affinity with
+  | some services, some aff =>
+    let vring := setKey (S "rules") (rowsJ vrules) vring
+    let o := setKey (S "services") (rowsJ services) o
+    let o := setKey (S "endpoints") (rowsJ endpoints) o
+    let o := setKey (S "environ") (rowsJ environ) o
+    let o := setKey (S "affinity_limits") (.obj aff) o
+    let cellsTruthy := match lookup (S "cells") vring with
+      | some c => c.truthyList
+      | none => false
+    some (if cellsTruthy || !vrules.isEmpty then setKey (S "vring") (.obj vring) o else o)
+  | _, _ => none
+
+/-- `Application.from_entry(entry)` (dn = None, no operational attributes) -/
+def appFromEntry (entry : Entry) : Option KVs :=
+  match entry2dict ExtCodec.appSchema entry,
+        groupedToList ExtCodec.appSvcSchema (pfxOf pService) entry,
+        groupedToList ExtCodec.appSvcRestartSchema (pfxOf pService) entry,
+        groupedToList ExtCodec.appEndpointSchema (pfxOf pEndpoint) entry,
+        groupedToList ExtCodec.appEnvironSchema (pfxOf pEnvvar) entry,
+        groupedToList ExtCodec.appAffinitySchema (pfxOf pAffinity) entry,
+        groupedToList ExtCodec.appVringRuleSchema (pfxOf pVringRule) entry,
+        entry2dict ExtCodec.appVringSchema entry with
+  | some o, some services, some restarts, some endpoints, some environ, some affinity, some vrules, some vring =>
+    appFinish o services restarts endpoints environ affinity vrules vring
+  | _, _, _, _, _, _, _, _ => none
 
 end TmVerif.Codec
